@@ -114,7 +114,9 @@ func (w *Worker) feasible(s *State, cond string) bool {
 }
 
 // branch forks s on the Bool term c; thenF/elseF position each side.
-func (w *Worker) branch(s *State, c string, onTrue, onFalse func(st *State)) ([]*State, bool) {
+func (w *Worker) branch(s *State, c string, onTrue0, onFalse0 func(st *State)) ([]*State, bool) {
+	onTrue := func(st *State) { guarded(st, func() { onTrue0(st) }) }
+	onFalse := func(st *State) { guarded(st, func() { onFalse0(st) }) }
 	if c == "true" {
 		onTrue(s)
 		return nil, false
